@@ -14,7 +14,7 @@ META = {
              'emitted count must equal the count delivered under an always filter. Signature = transition signature.'),
     'exhaustive_part': 'subset x list-length grid complete to n<=4 for each sampled state',
     'workers': {'quick': 12, 'thorough': 16},
-    'watchdog': {'quick': 300, 'thorough': 1800},
+    'watchdog': {'quick': 600, 'thorough': 3600},
 }
 
 
